@@ -33,14 +33,14 @@ EXOTIC_LABELS = [["in-plane", "out-of-plane", "m-x", "m-y"], ["a b", "c d", "e f
 
 @st.composite
 def vtk_case(draw):
-    g = draw(gen.geom(ndim=3, nmax=4, exps=(-9, 3), big_offsets=False, maxcells=60, tol=False))
+    g = draw(gen.geom(ndim=3, nmax=4, exps=(-9, 3), big_offsets=False, maxcells=60, tol=False, aniso=True))
     k = draw(st.integers(1, 4))
     vdims = draw(gen.vdims_strategy(k))
     if k > 1 and draw(st.integers(0, 3)) == 0:
         # labels are free text for VTK (array names): hyphens, blanks, dots, brackets, non-ASCII
         pool = draw(st.sampled_from(EXOTIC_LABELS))
         vdims = [pool[i] for i in draw(st.permutations(range(4)))[:k]]
-    return {"g": g, "subs": draw(gen.index_boxes(g["n"], 2)) if g["exp"] <= 0 else [], "k": k,
+    return {"g": g, "subs": draw(gen.index_boxes(g["n"], 2)) if g["exp"] <= 0 and not g.get("stretched") else [], "k": k,
             # component -> axis mapping: default, or any assignment of the labels to the axes (None = unmapped)
             "mapping": draw(st.one_of(st.none(), st.permutations([0, 1, 2, None][:max(k, 3)]).map(lambda p: list(p)[:k]))),
             "vdims": vdims, "seed": draw(st.integers(0, 2**31)),
